@@ -739,6 +739,44 @@ fn leftover_check(prev: &(String, bool, bool), cur: &(String, bool, bool)) -> Op
     }
 }
 
+thread_local! {
+    static MODULE_DIR: std::cell::RefCell<Option<crate::clocksim::Scratch>> = const { std::cell::RefCell::new(None) };
+}
+
+/// The same for a MODULE: the text is written to a file and compiled through
+/// `ModuleLoader::compile_module`, by a fresh loader and by one that has compiled the partner
+/// program (with the partner's settings) before
+fn leftover_module_check(prev: &(String, bool, bool), cur: &(String, bool, bool)) -> Option<String> {
+    let dir = MODULE_DIR.with(|d| {
+        let mut d = d.borrow_mut();
+        d.get_or_insert_with(|| crate::clocksim::Scratch::new("comp")).dir.clone()
+    });
+    std::fs::write(dir.join("cm.koto"), &cur.0).ok()?;
+    std::fs::write(dir.join("main.koto"), "").ok()?;
+    let script = dir.join("main.koto");
+    let compile = |loader: &mut koto::bytecode::ModuleLoader| -> Outcome {
+        set_hash_seed(0);
+        match std::panic::catch_unwind(std::panic::AssertUnwindSafe(|| loader.compile_module("cm", Some(script.as_path())))) {
+            Ok(Ok(r)) => Outcome::Ok((*r.chunk).clone()),
+            Ok(Err(e)) => Outcome::Err(e.to_string()),
+            Err(_) => Outcome::Err("panic while compiling".into()),
+        }
+    };
+    let fresh = compile(&mut koto::bytecode::ModuleLoader::default());
+    let mut used = koto::bytecode::ModuleLoader::default();
+    let _ = compile_with_loader(&mut used, &prev.0, prev.1, prev.2);
+    let via = compile(&mut used);
+    match (&via, &fresh) {
+        (Outcome::Ok(_), Outcome::Ok(_)) if via != fresh => Some(format!("as a module: {}", describe_difference(&fresh, &via))),
+        (Outcome::Ok(_), Outcome::Err(_)) | (Outcome::Err(_), Outcome::Ok(_)) => Some(format!(
+            "as a module: a fresh loader gives `{}`, the used one `{}`",
+            fresh.summary(),
+            via.summary()
+        )),
+        _ => None,
+    }
+}
+
 pub fn replay_leftover(doc: &Value) -> (Option<(String, String)>, u64) {
     let sc = &doc["scenario"];
     let get = |k: &str| -> (String, bool, bool) {
@@ -748,7 +786,7 @@ pub fn replay_leftover(doc: &Value) -> (Option<(String, String)>, u64) {
             sc[k]["enable_type_checks"].as_bool().unwrap_or(true),
         )
     };
-    match leftover_check(&get("previous"), &get("current")) {
+    match leftover_check(&get("previous"), &get("current")).or_else(|| leftover_module_check(&get("previous"), &get("current"))) {
         Some(d) => (Some((CLASS_LEFTOVER.into(), d)), 1),
         None => (None, 0),
     }
@@ -764,8 +802,8 @@ impl Worker for CompWorker {
         if violation.is_none() {
             let partner = make_scenario(mix(run_seed, 0x9a27), u64::MAX, &self.corpus);
             let prev = (partner.source, partner.export_top_level_ids, partner.enable_type_checks);
-            executions += 3;
-            if let Some(detail) = leftover_check(&prev, &cur) {
+            executions += 6;
+            if let Some(detail) = leftover_check(&prev, &cur).or_else(|| leftover_module_check(&prev, &cur)) {
                 violation = Some(ViolationReport {
                     class: CLASS_LEFTOVER.into(),
                     detail: format!("compiling another text first changes the result: {detail}"),
